@@ -19,6 +19,7 @@ MODULES = {
     "C10": "harness.intervals",
     "C11": "harness.rewrite",
     "C14": "harness.dwarf",
+    "C18": "harness.retarget",
     "C19": "harness.delsym",
     "C20": "harness.containers",
     "C15": "harness.cfi_eval",
